@@ -14,7 +14,11 @@ import (
 	"github.com/snower/slock/protocol"
 )
 
-const aEpoch = int64(1700000000)
+// aEpoch is the virtual clock origin. Engine A uses a fixed one; engine P (persistence) sets it relative
+// to the wall clock because recovery code reads time.Now().
+var aEpoch = int64(1700000000)
+
+const aFixedEpoch = int64(1700000000)
 
 type aOp struct {
 	K   string `json:"k"`             // lock | unlock | tick | collect
@@ -56,6 +60,11 @@ type aCase struct {
 	AofTime  int    `json:"aoftime"`
 	Clients  int    `json:"clients"`
 	Ops      []aOp  `json:"ops"`
+	// engine P only
+	AofBuf      int `json:"aofbuf,omitempty"`      // aof_file_buffer_size
+	RewriteSize int `json:"rewritesize,omitempty"` // aof_file_rewrite_size
+	EpochOff    int `json:"epochoff,omitempty"`    // >0: virtual clock starts EpochOff seconds before the wall clock
+	DataDir     string `json:"-"`
 }
 
 func (c *aCase) fingerprint() uint64 {
@@ -127,14 +136,21 @@ type aEnv struct {
 	hist     []aHistRec
 	mon      *aMonitor
 	sending  *aReq
+	shortIds map[[3]int]bool // engine P: LockIds whose hold ends before the restart instant
 }
 
 func aNewEnv(c *aCase) (*aEnv, error) {
-	inst, err := vNewInst(vInstOpts{DBConcurrent: uint(c.Conc), DBFastKeyCount: uint(c.FastKeys), DBLockAofTime: uint(c.AofTime), NoCheckLoop: true})
+	if c.EpochOff > 0 {
+		aEpoch = time.Now().Unix() - int64(c.EpochOff)
+	} else {
+		aEpoch = aFixedEpoch
+	}
+	inst, err := vNewInst(vInstOpts{DBConcurrent: uint(c.Conc), DBFastKeyCount: uint(c.FastKeys), DBLockAofTime: uint(c.AofTime), NoCheckLoop: true,
+		AofFileBufferSize: uint(c.AofBuf), AofFileRewriteSize: uint(c.RewriteSize), DataDir: c.DataDir})
 	if err != nil {
 		return nil, err
 	}
-	e := &aEnv{c: c, inst: inst, now: aEpoch}
+	e := &aEnv{c: c, inst: inst, now: aEpoch, shortIds: map[[3]int]bool{}}
 	e.dbs = make([]*LockDB, 2)
 	e.toQ = make([][][]*LockQueue, 2)
 	e.exQ = make([][][]*LockQueue, 2)
@@ -241,6 +257,8 @@ func (e *aEnv) apply(op aOp) {
 		e.send(op)
 	case "tick":
 		e.tick(op)
+	case "rotate":
+		e.rotate()
 	case "collect":
 		// the pool collectors run every 300 s of wall time (Server.handleFreeCollect); emulate that cadence
 		for _, d := range e.dbs {
@@ -289,6 +307,36 @@ func (e *aEnv) send(op aOp) {
 	_ = p.ProcessLockCommand(cmd)
 	r.InFlight = false
 	e.mon.onReturned(r)
+}
+
+// rotate is the admin REWRITEAOF command: new append file + compaction of the older ones, waited for.
+func (e *aEnv) rotate() {
+	aof := e.inst.slock.aof
+	vAofIdle(aof)
+	aof.glock.Lock()
+	busy := aof.isRewriting || aof.isWaitRewite
+	aof.glock.Unlock()
+	if busy {
+		_ = aof.WaitRewriteAofFiles()
+		return
+	}
+	// RewriteAofFile(true) would run the compaction in a goroutine; run the same body synchronously
+	aof.aofGlock.Lock()
+	err := aof.RewriteAofFile(false)
+	aof.aofGlock.Unlock()
+	if err == nil {
+		aof.rewriteAofFiles()
+	}
+	e.logf("rotate -> append.aof.%d", aof.aofFileIndex)
+}
+
+// quiesce drains the persistence queue and flushes the append file (a quiescent point of C07).
+func (e *aEnv) quiesce() {
+	aof := e.inst.slock.aof
+	vAofIdle(aof)
+	vWaitRewrite(aof)
+	vAofIdle(aof)
+	aof.FlushWithLocked()
 }
 
 // tick replicates the bodies of LockDB.checkTimeOut / checkExpried (the loops of startCheckLoop that
